@@ -15,9 +15,10 @@ type Value interface{}
 // ("chunk:N: " + Rest). To the Lua program it is a string; any operation that would inspect its
 // content makes the run indeterminate.
 type Opaque struct {
-	Kind   string // "fault" | "pos" | "anystring"
-	Lo, Hi int
-	Rest   string
+	Kind     string // "fault" | "pos" | "anystring" | "endswith" | "linenum"
+	Lo, Hi   int    // lines of the innermost statement (or block header) being executed
+	ELo, EHi int    // lines of the innermost failing expression inside it (0: not known)
+	Rest     string
 }
 
 type Table struct {
